@@ -64,7 +64,13 @@ fn main() {
     match args.positional.first().map(|s| s.as_str()) {
         Some("corpus") => {
             let out = args.get("out").map(String::from).unwrap_or_else(|| verif_core::common::work_dir().display().to_string());
-            let c = corpus::build(args.seed(), args.tier());
+            let mut c = corpus::build(args.seed(), args.tier());
+            if args.get("only-forms").is_some() {
+                // the subset compiled release-like for C09
+                c.specs.retain(|s| s.forms && s.family != "options" && s.probes.is_empty());
+                let cap = args.tier().pick(24, 64);
+                c.specs.truncate(cap);
+            }
             let mut feats = std::collections::BTreeMap::new();
             for s in &c.specs {
                 if let Ok(g) = verif_core::ir::Grammar::parse(&s.text) {
